@@ -566,6 +566,86 @@ def gen_dead_arm(loader, check, replay_on=True):
     c06.gen_selected(loader, check, replay_on)
 
 
+def gen_same_operand(loader, check, replay_on=True):
+    """`x op x`: the SAME operand node in both positions of a binary node (both arms of ?:, both sides of a comparison ...). Each position
+    reads it once - two reads, two distinct texts, both embedded; on a real variable-backed operand exactly one of them is raw."""
+    t32 = (True, 32)
+    AT = irkit.enum(loader, "ArithmeticOp", "ArithmeticType")
+    BT = irkit.enum(loader, "BitOp", "BitOperationType")
+    CT = irkit.enum(loader, "CompareOp", "CompareOpType")
+    BO = irkit.enum(loader, "BooleanOp", "BooleanOpType")
+    cases = {
+        "ArithmeticOp(+)": lambda it, x: it.call(irkit.C(loader, "ArithmeticOp"), ["op", x, x, AT("+")], {}),
+        "ArithmeticOp(-)": lambda it, x: it.call(irkit.C(loader, "ArithmeticOp"), ["op", x, x, AT("-")], {}),
+        "ArithmeticOp(*)": lambda it, x: it.call(irkit.C(loader, "ArithmeticOp"), ["op", x, x, AT("*")], {}),
+        "BitOp(&)": lambda it, x: it.call(irkit.C(loader, "BitOp"), ["op", x, x, BT("&")], {}),
+        "BitOp(^)": lambda it, x: it.call(irkit.C(loader, "BitOp"), ["op", x, x, BT("^")], {}),
+        "BitOp(<<)": lambda it, x: it.call(irkit.C(loader, "BitOp"), ["op", x, x, BT("<<")], {}),
+        "CompareOp(==)": lambda it, x: it.call(irkit.C(loader, "CompareOp"), ["op", x, x, CT("==")], {}),
+        "CompareOp(<)": lambda it, x: it.call(irkit.C(loader, "CompareOp"), ["op", x, x, CT("<")], {}),
+        "BooleanOp(&&)": lambda it, x: it.call(irkit.C(loader, "BooleanOp"), ["op", x, x, BO("&&")], {}),
+        "Ternary(c ? x : x)": lambda it, x: it.call(irkit.C(loader, "Ternary"), ["op", irkit.mk_operand(it, "CompareOp", t32, "c"), x, x], {}),
+        "Ternary(x ? x : y)": lambda it, x: it.call(irkit.C(loader, "Ternary"), ["op", x, x, irkit.mk_operand(it, "Variable", t32, "y")], {}),
+    }
+    for lab, mk in cases.items():
+        for kind in ("Variable", "Register"):
+            def build(it, mk=mk, kind=kind):
+                x = irkit.mk_operand(it, kind, t32, "x")
+                n = mk(it, x)
+                others = [o for o in n.fields["ops"] if o is not x]
+                return n, [x] + others
+            emit.run_emission(check, loader, f"{lab.split('(')[0]}.il_exec", f"same operand twice: {lab} operand={kind}", build)
+        # on the real operand: one raw use, the other DUP
+        check.instances_declared += 1
+
+        def setup(it, mk=mk):
+            RA = irkit.enum(loader, "Register", "RegisterAccessType")
+            x = it.call(irkit.C(loader, "Register"), ["Rs", RA.R, conc_vt(loader, t32)], {})
+            return {"n": mk(it, x), "x": x}
+        ex = explore(loader, setup, lambda it, st: it.call(it.getattr_(st["n"], "il_exec"), [], {}))
+        check.absorb(ex, f"same operand {lab}")
+        if ex.paths:
+            check.instances_generated += 1
+        for p in ex.paths:
+            inst = f"same register twice: {lab}"
+            if p.outcome != "return":
+                check.ob("il_exec(same operand)#total", inst, p.ctx.pc, False, detail=f"raises {p.value!r}")
+                continue
+            txt = emit.as_tpl(p.value).render(lambda a: f"@{a.tag}")
+            import re as _re
+            dups = len(_re.findall(r"DUP\(Rs\)", txt))
+            raw = len(_re.findall(r"(?<![A-Za-z0-9_])Rs(?![A-Za-z0-9_])", txt)) - dups
+            check.ob("il_exec(same operand)#raw: one raw use, every other use DUP", inst, p.ctx.pc, raw == 1 and dups >= 1, detail=txt)
+    # the callbacks keep both positions: `x op x` builds a node whose two operands are x (same type on both sides: nothing to convert)
+    T = loader.load(tkit.M_T).globals["RZILTransformer"]
+    for cb, tok, op, cls in (("additive_expr", "ADD_OP", "+", "ArithmeticOp"), ("additive_expr", "SUB_OP", "-", "ArithmeticOp"), ("multiplicative_expr", "MUL_OP", "*", "ArithmeticOp"),
+                             ("and_expr", "AND_OP", "&", "BitOp"), ("exclusive_or_expr", "XOR_OP", "^", "BitOp"), ("inclusive_or_expr", "OR_OP", "|", "BitOp"),
+                             ("equality_expr", "EQ_OP", "==", "CompareOp"), ("relational_expr", "LT_OP", "<", "CompareOp")):
+        if cb not in T.methods:
+            check.undecided.append((f"same operand {cb}", "callback not found (needs contract)"))
+            continue
+        inst = f"x {op} x"
+        check.instances_declared += 1
+
+        def setup_c(it):
+            t = tkit.mk_transformer(it)
+            x = irkit.mk_operand(it, "Register", t32, "x")
+            it.ctx.mark_pre(t, x)
+            return {"t": t, "x": x}
+        ex = explore(loader, setup_c, lambda it, st, cb=cb, tok=tok, op=op: it.call(tkit.method(it, st["t"], cb), [[st["x"], Token(tok, op), st["x"]]], {}))
+        check.absorb(ex, f"{cb} {inst}")
+        if ex.paths:
+            check.instances_generated += 1
+        for p in ex.paths:
+            if p.outcome != "return":
+                check.ob(f"{cb}(same operand)#total", inst, p.ctx.pc, False, detail=f"raises {p.value!r}")
+                continue
+            r, x = p.value, p.state["x"]
+            ok = isinstance(r, Obj) and r.cls is irkit.C(loader, cls) and len(r.fields["ops"]) == 2 and all(o is x for o in r.fields["ops"])
+            check.ob(f"{cb}(same operand)#children: both operands of the node are x", inst, p.ctx.pc, ok, detail=repr(getattr(r, "fields", {}).get("ops")))
+            check.ob(f"{cb}(same operand)#children: x keeps its type", inst, p.ctx.pc, ir.vt(x) == t32)
+
+
 def gen_history(loader, check, replay_on=True):
     """'exactly one consuming use ... nothing initialised is left unconsumed' for every history of the compiler object: an operand of an
     earlier behaviour (whose raw use is spent) must not be handed out again - nothing registered survives reset(), and no operand holder
@@ -597,6 +677,7 @@ def tasks():
     ts += [("contracts.c08", "gen_task", {"what": w}) for w in ("build_arg_list", "call_text")]
     ts += [("contracts.c12", "gen_dead_arm", {})]
     ts += [("contracts.c12", "gen_history", {})]
+    ts += [("contracts.c12", "gen_same_operand", {})]
     return ts
 
 
@@ -615,6 +696,7 @@ def generate_reduced(loader, check):
     c08.gen_call_text(loader, check, False)
     gen_dead_arm(loader, check, False)
     gen_history(loader, check, False)
+    gen_same_operand(loader, check, False)
 
 
 def run(check: Check):
